@@ -78,8 +78,40 @@ def sweep_cases():
     return out
 
 
+def check_delimiter(ctx=None):
+    """The result writes CURIEs as the input does (an unknown or clashing entry adds nothing - not even another delimiter)."""
+    from ..impl import Converter, to_record
+
+    fails = []
+    base = c11.BASES[0]
+    for d in ("/", "::", "_"):
+        for op, f, mappings in (("remap_uri", remap_uri_prefixes, ({}, {"x": "n"}, {"zz": "n"}, {"x1": "n"}, {"x": "y"})),
+                                ("rewire", rewire, ({}, {"a": "n"}, {"zz": "n"}, {"a1": "x1"}, {"a": "y"}))):
+            for mapping in mappings:
+                conv = Converter([to_record(r) for r in base], delimiter=d)
+                where = f"{op}(base 0 with delimiter {d!r}, {mapping})"
+                try:
+                    res = f(conv, mapping)
+                except Exception as e:  # noqa
+                    fails.append((f"{op}/raises/{type(e).__name__}", f"{where}: {type(e).__name__}"))
+                    continue
+                for r in base:
+                    for u in r.uri_prefixes:
+                        want = conv.compress(u + "#7")
+                        got = res.compress(u + "#7")
+                        if got != want:
+                            fails.append((f"{op}/result-writes-curies-with-another-delimiter", f"{where}: compress({u + '#7'!r}) = {got!r}, the input gives {want!r}"))
+                    for p_ in r.prefixes:
+                        if res.expand(p_ + d + "1") is None:
+                            fails.append((f"{op}/curie-prefixes-of-a-record-changed", f"{where}: expand({p_ + d + '1'!r}) is None"))
+                if ctx is not None:
+                    ctx.count("transitions")
+                    ctx.count("delimiter_checks")
+    return fails
+
+
 def units(tier, seed):
-    us = [{"kind": "sweep", "part": i, "of": 16} for i in range(16)]
+    us = [{"kind": "sweep", "part": i, "of": 16} for i in range(16)] + [{"kind": "delimiter"}]
     for op in ("remap_uri", "rewire"):
         for b in range(4):
             keys = URI_NAMES[b] if op == "remap_uri" else CURIE_NAMES[b]
@@ -248,6 +280,10 @@ def check(op, base_idx, pairs, ctx=None, maptype="dict"):
 
 
 def run_unit(unit, ctx):
+    if unit.get("kind") == "delimiter":
+        for sig, msg in check_delimiter(ctx)[:2]:
+            ctx.violation("C12/" + sig, msg, {"kind": "delimiter"})
+        return
     if unit.get("kind") == "sweep":
         for i, case in enumerate(sweep_cases()):
             if i % unit["of"] != unit["part"]:
@@ -272,6 +308,8 @@ def run_unit(unit, ctx):
 
 
 def replay(case):
+    if case.get("kind") == "delimiter":
+        return [("C12/" + s, m) for s, m in check_delimiter(None)]
     return [("C12/" + s, m) for s, m in check(case["op"], case["base"], case["pairs"], None, case.get("maptype", "dict"))]
 
 
